@@ -44,7 +44,7 @@ func Manifest() []byte {
 			"technique":  p.Technique,
 		})
 	}
-	var na []map[string]string
+	na := []map[string]string{}
 	var naIDs []string
 	for id := range NotApplicable {
 		if Properties[id] == nil {
